@@ -74,11 +74,23 @@ META = dict(
          'truncation point, every subset of damaged messages x 5 damage kinds x modes, and the command line. The Decoder object is '
          'modelled as a state machine (its table of section configurations as a memo table): after ANY history of operations every '
          'operation gives the stateless model\'s result (C12_history_*); checked on the implementation by random sessions of '
-         'strict / lenient / metadata-only / failing decodes and scans on ONE Decoder object against a fresh object, the oracle and the model.',
+         'strict / lenient / metadata-only / failing decodes and scans on ONE Decoder object against a fresh object, the oracle and the model. '
+         'Declared section lengths: for every layout whose length comes first (all bundled ones, all decoding modes) every error of the '
+         'section decoder is a library error whatever the declared value, and a declared length below the fixed part of the section is '
+         'always refused, at every section, from any state of the section loop (C12_section_errors_are_library_errors, '
+         'C12_short_section_length_refused[_in_loop]); checked by a sweep of the declared length of EVERY section over every value from 0 '
+         'to beyond the real length. Aborted template walks: the coder state ACROSS walks is modelled (registers threaded from subset to '
+         'subset and message to message, reset_template_state as a function, an aborted walk leaves ANY registers) and after any history a '
+         'decode gives the stateless result (C12_aborted_*; with the reset of seeded change C12-4 it provably does not); checked by aborting '
+         'walks at every position of the descriptor list and at many cuts of the data on a plain and a compiled Decoder, each abort followed '
+         'by decodes of valid messages (canaries sensitive to every register first) on the same, the other and new objects, compared with a '
+         'FRESH PROCESS and the Lean coder model, and by comparing the registers of new / reset CoderState objects with the model\'s.',
     technique='Lean 4 theorems (induction over the stream, frame lemma) + checked model/implementation correspondence under fault enumeration',
     note='Which length faults are *detected* is not a theorem (BUFR has no checksum): the check counts damaged-but-still-parsed '
          'deliveries. In the one-byte skip branch the scan searches the signature again inside the damaged message; the theorem '
-         'requires its remainder to be signature-free and the check counts the streams where it is not.',
+         'requires its remainder to be signature-free and the check counts the streams where it is not. The data coder raises '
+         'non-library errors on garbled templates / data (F15) and can spin on a garbled replication factor (F23-C12): the two '
+         'section-length theorems carry the hypothesis that the data coder raises library errors only.',
 )
 
 TOLERANT = ('len-1', 'len+', 'len=')
@@ -1254,7 +1266,7 @@ def probe_after_abort(ctx, abort, who, decs, probe_b, probe_on):
     out, sb, dg, _, exc = decode_obs(dec, probe_b)
     want = REF[probe_b]['full']
     ctx.traces += 1
-    ctx.count('aborted:probe:' + ('same-object' if probe_on == who else probe_on))
+    ctx.count('aborted:probe:' + ('same-object' if probe_on == who else probe_on) + (':canary' if probe_b[:4] == b'BUFR' and probe_b in CANARY_SET else ''))
     if out == 'ok' and sb == probe_b and dg == want[2]:
         return True
     got = out if out != 'ok' else 'different values / descriptors / bytes'
@@ -1269,8 +1281,29 @@ def probe_after_abort(ctx, abort, who, decs, probe_b, probe_on):
     return False
 
 
-def run_aborted_walks(ctx, drv, treq, rng, pool, nmsgs, ncorpus, ncuts):
+CANARY_IDS = [12001, 1015, 20003, 11002]
+CANARY_SET = set()
+
+
+def canaries():
+    """two small valid messages whose FIRST descriptors are sensitive to every register a walk can leave behind: a numeric
+    element of class 12 with a scale (221 would skip it, 201 / 202 / 207 change its width or scale, 203 reads it as a new
+    reference value, 204 puts an associated field in front of it, 206 reads it as a skipped local descriptor), a character
+    element (208), a code table, another numeric; one uncompressed, one compressed with two subsets and another edition.
+    Built through the implementation's Encoder: call before anything damaged is decoded."""
+    out = []
+    for vals, comp, ed in (([[21.5, 'CANARY', 3, 4.5]], False, 4),
+                           ([[21.5, 'CANARY', 3, 4.5], [22.5, 'CANARY', 3, 4.0]], True, 3)):
+        st, b, _ = C.impl_encode(C.make_message_json(CANARY_IDS, vals, comp, edition=ed))
+        if st == 'ok':
+            out.append(b)
+            CANARY_SET.add(b)
+    return out
+
+
+def run_aborted_walks(ctx, drv, treq, rng, pool, nmsgs, ncorpus, ncuts, canary):
     from pybufrkit.decoder import Decoder
+    canary = [b for b in canary if not fresh_reference([b])]
     # generated messages whose template has operator scopes / bitmaps / replications, preferring distinct scope kinds
     cand = []
     for m in pool:
@@ -1314,8 +1347,8 @@ def run_aborted_walks(ctx, drv, treq, rng, pool, nmsgs, ncorpus, ncuts):
     probes_other = [m.b for m in pool[:3]]
     decs = {'plain': Decoder(), 'compiled': Decoder(compiled_template_cache_max=20)}
     healthy = True
-    state_ok = True
-    problems = coder_state_check()
+    state_ok = not os.environ.get('VERIF_C12_NO_STATE_CHECK')      # switched off by the mutation self-test only
+    problems = coder_state_check() if state_ok else []
     ctx.count('aborted:coder-state-checks')
     if problems:
         state_ok = False
@@ -1360,6 +1393,11 @@ def run_aborted_walks(ctx, drv, treq, rng, pool, nmsgs, ncorpus, ncuts):
                 # at once: the valid message on the same object, on the other one; now and then on brand-new ones and
                 # another message
                 todo = [(b, who), (b, 'compiled' if who == 'plain' else 'plain')]
+                if canary:
+                    # the canary first on even aborts (a register that runs down - 221, 206 - is used up by the first walk
+                    # that meets it, visibly only when that walk starts with an element it applies to), last on odd ones
+                    cn = (canary[(n_ // 2) % len(canary)], who)
+                    todo = [cn] + todo if n_ % 2 == 0 else todo + [cn]
                 if n_ % 4 == 0:
                     todo += [(b, 'new'), (b, 'new-compiled'), (rng.choice(probes_other), who)]
                 for pb, on in todo:
@@ -1470,6 +1508,7 @@ def run(ctx):
     pool_s = S.gen_messages(drv, rs, 60, needle_p=0.25)
     pool_t = truncation_pool(drv, rt, 32 if quick else 400)
     pool_c = [m for m in S.gen_messages(drv, rc, 20, needle_p=0.0) if len(m.b) <= 400]
+    canary = canaries()
     if len(pool_s) < 8 or len(pool_t) < 8 or len(pool_c) < 2:
         raise core.MachineryError('message generation gives too few valid messages (%d, %d, %d)' % (len(pool_s), len(pool_t), len(pool_c)))
 
@@ -1496,7 +1535,7 @@ def run(ctx):
         variants = {id(m): damage_variants(rs, m) for m in pool}
     timed('length sweep', run_length_sweep, ctx, drv, treq, ctx.rng('sweep'), pool, 6 if quick else 30)
     timed('aborted walks', run_aborted_walks, ctx, drv, treq, ctx.rng('aborted'), pool, 5 if quick else 30, 2 if quick else 6,
-          24 if quick else 120)
+          24 if quick else 120, canary)
     timed('histories', run_histories, ctx, drv, treq, ctx.rng('history'), pool, variants, 240 if quick else 2400)
     timed('truncation', run_truncation, ctx, drv, treq, rt, pool_t, 4 if quick else 30)
     timed('cli', run_cli, ctx, drv, treq, rc, pool_c)
